@@ -39,7 +39,7 @@ class GrammarSemantics(ModelBuilderSemantics):
         cls._validate_literal(ast)
         try:
             re.compile(str(ast))
-        except (TypeError, re.error) as e:
+        except (TypeError, OverflowError, RecursionError, re.error) as e:
             raise FailedSemantics(f'"{ast!r}"pattern error: {e!s}') from e
 
     def token(self, ast: str) -> g.Token:
